@@ -1,12 +1,13 @@
 #!/bin/bash
 # Development helper: run every quick check under several seeds from fresh processes and report
 # anything that is not a silent exit 0 on the unchanged tree.
+HERE="$(cd "$(dirname "$0")" && pwd)"
 SEEDS="${SEEDS:-1 2 3 4 5}"
 OUT=${OUT:-/tmp/soak_out}
 mkdir -p $OUT
 for s in $SEEDS; do
   for p in ${PROPS:-C01 C02 C03 C04 C05 C06 C07 C08 C09 C10 C11 C12 C13 C14 C15 C16 C17 C18}; do
-    VERIF_OUT_DIR=$OUT VERIF_SEED=$s /verif/check $p --tier ${TIER:-quick} > $OUT/$p.$s.log 2>&1
+    VERIF_OUT_DIR=$OUT VERIF_SEED=$s $HERE/../check $p --tier ${TIER:-quick} > $OUT/$p.$s.log 2>&1
     rc=$?
     v=$(grep -c "^VIOLATION" $OUT/$p.$s.log)
     echo "seed=$s $p exit=$rc violations=$v $(grep -o 'wall=.*' $OUT/$p.$s.log)"
